@@ -5,6 +5,7 @@ go 1.23.4
 require (
 	github.com/beevik/etree v1.5.0
 	github.com/openconfig/gnmi v0.13.0
+	github.com/scrapli/scrapligo v1.3.3
 	github.com/sdcio/cache v0.0.35
 	github.com/sdcio/data-server v0.0.0
 	github.com/sdcio/schema-server v0.0.30
@@ -65,7 +66,6 @@ require (
 	github.com/prometheus/common v0.60.1 // indirect
 	github.com/prometheus/procfs v0.15.1 // indirect
 	github.com/rs/xid v1.6.0 // indirect
-	github.com/scrapli/scrapligo v1.3.3 // indirect
 	github.com/sdcio/yang-parser v0.0.10 // indirect
 	github.com/sirikothe/gotextfsm v1.0.1-0.20200816110946-6aa2cfd355e4 // indirect
 	github.com/x448/float16 v0.8.4 // indirect
